@@ -165,6 +165,12 @@ class PEval:
             return env[ast.unparse(e)]            # a call whose value the caller of the evaluator fixes (e.g. self._getuint())
         if name == 'float' and len(args) == 1 and isinstance(args[0], str) and args[0].lstrip('+-').lower() in ('nan', 'inf', 'infinity'):
             return float(args[0])
+        if name == 'bool' and len(args) == 1 and is_const(args[0]) and isinstance(args[0], (bool, int, str, type(None))):
+            return bool(args[0])
+        if name == 'int' and len(args) == 1 and is_const(args[0]) and isinstance(args[0], (bool, int)):
+            return int(args[0])
+        if name == 'str' and len(args) == 1 and is_const(args[0]) and isinstance(args[0], str):
+            return args[0]
         if name in ('float', 'int', 'bool', 'str') and len(args) == 1:
             return args[0] if not is_const(args[0]) else sym(f'{name}(..)')
         if isinstance(e.func, ast.Attribute) and e.func.attr == 'get' and 1 <= len(args) <= 2:
